@@ -92,74 +92,10 @@ pub fn any_reader() -> ScriptReader {
 pub mod proofs {
     use super::*;
 
-    #[kani::proof]
-    #[kani::unwind(42)]
-    pub fn c15_read_to_end() {
-        let mut r = any_reader();
-        // existing content of 0..=2 bytes, capacity anywhere from exact fit to roomy
-        let pre: usize = kani::any();
-        kani::assume(pre <= 2);
-        let extra: usize = kani::any();
-        kani::assume(extra <= DATA + 1);
-        let mut v: Vec<u8> = Vec::with_capacity(pre + extra);
-        let mut i = 0;
-        while i < pre {
-            v.push(0xA0 + i as u8);
-            i += 1;
-        }
-        let res = r.read_to_end(&mut v);
-        // whatever happened: old content intact, then exactly the bytes consumed so far, in order
-        assert!(v.len() >= pre, "existing_content_kept");
-        let mut i = 0;
-        while i < pre {
-            assert!(v[i] == 0xA0 + i as u8, "existing_content_intact");
-            i += 1;
-        }
-        match res {
-            Ok(n) => {
-                assert!(r.pos == r.len, "ok_only_at_end_of_data");
-                assert!(n == r.len && v.len() == pre + r.len, "returns_appended_count");
-                let mut i = 0;
-                while i < r.len {
-                    assert!(v[pre + i] == r.data[i], "appended_bytes_exact_and_in_order");
-                    i += 1;
-                }
-            }
-            Err(e) => {
-                assert!(r.errored && !e.matches_errno(Errno::EINTR), "err_is_the_readers_error_not_EINTR");
-                assert!(v.len() <= pre + r.pos, "nothing_invented_on_error");
-            }
-        }
-        kani::cover!(res.is_ok() && r.len == DATA && extra == DATA, "exact-fit capacity path");
-    }
-
-    #[kani::proof]
-    #[kani::unwind(42)]
-    pub fn c15_read_to_string() {
-        let mut r = any_reader();
-        kani::assume(r.len <= 4);
-        let mut s = String::from("ab");
-        let res = r.read_to_string(&mut s);
-        let valid = core::str::from_utf8(&r.data[..r.len]).is_ok();
-        match res {
-            Ok(n) => {
-                assert!(valid && r.pos == r.len, "ok_only_for_utf8_at_end_of_data");
-                assert!(n == r.len && s.len() == 2 + r.len, "returns_appended_count");
-                assert!(s.as_bytes()[0] == b'a' && s.as_bytes()[1] == b'b', "existing_content_intact");
-                let mut i = 0;
-                while i < r.len {
-                    assert!(s.as_bytes()[2 + i] == r.data[i], "appended_bytes_exact");
-                    i += 1;
-                }
-            }
-            Err(_) => {
-                if r.pos == r.len && !r.errored && !valid {
-                    assert!(s.len() == 2 && s.as_bytes()[0] == b'a' && s.as_bytes()[1] == b'b', "string_unchanged_when_not_utf8");
-                }
-                assert!(core::str::from_utf8(s.as_bytes()).is_ok(), "string_stays_utf8");
-            }
-        }
-    }
+    // read_to_end / read_to_string harnesses were tried here (scripted reader, <= 3 calls, <= 3 bytes,
+    // symbolic and concrete capacities) and removed: CBMC does not finish them in 15 minutes — the
+    // ReadBuf / MaybeUninit / spare_capacity_mut / realloc machinery, not the loop, is what it cannot
+    // carry.  They are therefore NOT decided by this framework (DESIGN §4.C15).
 
     #[kani::proof]
     #[kani::unwind(12)]
